@@ -183,15 +183,15 @@ func (m *Model) cands(sn any, p Pos, depth int) []cand {
 		for _, e := range enum {
 			switch x := e.(type) {
 			case string:
-				out = append(out, cand{v: x + "x", class: "enum-nonmember"}, cand{v: strings.ToUpper(x), class: "enum-nonmember"}, cand{v: "", class: "enum-nonmember"})
+				out = append(out, cand{v: x + "x", class: "enum-nonmember:string"}, cand{v: strings.ToUpper(x), class: "enum-nonmember:string"}, cand{v: "", class: "enum-nonmember:string"})
 			case json.Number:
 				r := rat(x)
-				out = append(out, cand{v: num(new(big.Rat).Add(r, big.NewRat(1, 1)).FloatString(0)), class: "enum-nonmember"})
+				out = append(out, cand{v: num(new(big.Rat).Add(r, big.NewRat(1, 1)).FloatString(0)), class: "enum-nonmember:number"})
 				if r.IsInt() {
-					out = append(out, cand{v: num(new(big.Rat).Add(r, big.NewRat(1, 2)).FloatString(1)), class: "enum-nonmember"})
+					out = append(out, cand{v: num(new(big.Rat).Add(r, big.NewRat(1, 2)).FloatString(1)), class: "enum-nonmember:number"})
 				}
 			case bool:
-				out = append(out, cand{v: !x, class: "enum-nonmember"})
+				out = append(out, cand{v: !x, class: "enum-nonmember:boolean"})
 			}
 		}
 		for _, o := range otherTypeValues {
